@@ -23,7 +23,8 @@ def _consistent(doc):
     dup = [p for p in set(listed) if listed.count(p) != 1]
     missing = [p for p in present if p not in listed]
     absent = [p for p in listed if p != "/" and not p.endswith("/") and p not in present]
-    return (not dup and not missing and not absent), f"listed twice {dup}; present but unlisted {missing}; listed but absent {absent}"
+    root = doc.manifest.get_media_type("/")
+    return (not dup and not missing and not absent and root == doc.mimetype), f"listed twice {dup}; present but unlisted {missing}; listed but absent {absent}; root entry media type {root!r}"
 
 
 def manifest_history3(i2, op3, i3, op1=0, op2=0, **kw):
@@ -36,6 +37,8 @@ def manifest_history4(i2, op3, i3, op4, i4, op1=0, op2=0, **kw):
 
 def manifest_history(op2, i2, op3, i3, op1=0, i1=0, more=(), **kw):
     doc = Document("text")
+    doc.set_part("layout-cache", b"cache")
+    doc.manifest.add_full_path("layout-cache", "application/binary")
     notes = []
     for op, i in ((op1, i1), (op2, i2), (op3, i3)) + tuple(more):
         name = NAMES[i]
@@ -50,6 +53,13 @@ def manifest_history(op2, i2, op3, i3, op1=0, i1=0, more=(), **kw):
         elif op == 2:
             doc.manifest.add_full_path(path, "image/png")
             doc.container.set_part(path, b"data")
+        elif op == 4:
+            if "layout-cache" in doc.container.parts:
+                try:
+                    doc.container.get_part("layout-cache")
+                    doc.del_part("layout-cache")
+                except ValueError:
+                    pass
         else:
             if doc.manifest.get_media_type(path) is not None:
                 doc.manifest.set_media_type(path, "image/x")
